@@ -29,6 +29,16 @@ var protoTexts = []string{
 	"data: {\"jsonrpc\":\"2.0\",\"id\":1,\"method\":\"ping\"}",
 }
 
+// printfTexts: printf material. A text that some layer hands to a Sprintf / Errorf / Printf-style function as the FORMAT
+// comes out altered ("50% done" -> "50%!d(MISSING)one"); whatever travels - a handler's error message first of all - must
+// arrive byte for byte. A fixed set, part of every run on every transport; the string class "printf" (gen.go) and the
+// random generators draw from the same material.
+var printfTexts = []string{
+	"%", "%d", "%s", "%v", "%%", "100%", "%!", "%[1]d", "%!d(MISSING)", "%+v", "%x", "%5.2f", "%*d",
+	"50% done", "quota 100% used, retry in %d s", "trailing percent %", "%\u00e9", "%\u6f22\U0001F600", "%!s(MISSING) %!(EXTRA string=x)",
+	"%[2]*[1]d %#v %T %q %c %U %e %g %p %t %b %o %w", "%%%", "a%sb%vc%dd", "%-08.3f|%+d|% x", "%!(NOVERB)", "%!(BADINDEX)", "\n%d\n", "{\"%s\":\"%d\"}",
+}
+
 type kwCase struct {
 	name string // stable id "<shape>/<keyword>"
 	kw   string // the keyword the shape is built around ("" = a combination: no single name to rename for the control)
@@ -93,6 +103,18 @@ func keywordJSONCases() []kwCase {
 		texts = append(texts, t)
 	}
 	k("array-of-texts", map[string]any{"texts": texts})
+	// printf material as member names and as values
+	pf := []any{}
+	for _, t := range printfTexts {
+		pf = append(pf, t)
+	}
+	k("printf-values", map[string]any{"texts": pf, "progress": "100%", "n": map[string]any{"fmt": "%d", "args": []any{"%s", 1}}})
+	names := map[string]any{}
+	for i, t := range printfTexts {
+		names[t] = printfTexts[(i+1)%len(printfTexts)]
+	}
+	k("printf-member-names", names)
+	k("printf-member-names-depth3", map[string]any{"%d": map[string]any{"%s": []any{map[string]any{"100%": "%v", "%": nil}}}})
 	return out
 }
 
@@ -161,7 +183,7 @@ func (e *env) keywordPath() {
 		toolStep(kc, "structured")
 	}
 	// the vocabulary in every string position of the typed parts
-	texts := append(append([]string{}, protoKeywords...), protoTexts...)
+	texts := append(append(append([]string{}, protoKeywords...), protoTexts...), printfTexts...)
 	for _, t := range texts {
 		tv := resultS(nil, list(textC(t, nil), imageC(t, t, nil), audioC(t, t, nil), embC(textR(t, t, t), nil), embC(blobR(t, t, t), nil)), nil, true)
 		if ok, view, err := e.toolCase(tv, "keyword-text"); !ok {
@@ -242,6 +264,12 @@ func keywordTools() []*mcp.Tool {
 	for i, kw := range protoKeywords[2:] {
 		out = append(out, mcp.NewTool(kw, mcp.WithDescription(protoTexts[i%len(protoTexts)]), mcp.WithString(kw, mcp.Description(kw))))
 	}
+	// printf material in names, descriptions, parameter names, enums, titles
+	out = append(out,
+		mcp.NewTool("%d", mcp.WithDescription("50% done: %d %s %v"), mcp.WithString("%s", mcp.Description("%v"), mcp.Enum("%", "%%", "100%")),
+			mcp.WithNumber("100%", mcp.Description("%5.2f")), mcp.WithToolAnnotations(&mcp.ToolAnnotations{Title: "%!d(MISSING)"})),
+		mcp.NewTool("tool 100%", mcp.WithDescription("%[1]d %*d %+v %x %")),
+		&mcp.Tool{Name: "%s%v", Description: "%"})
 	return out
 }
 
@@ -251,6 +279,9 @@ func keywordPrompts() []*mcp.Prompt {
 	for i, kw := range protoKeywords[1:] {
 		out = append(out, &mcp.Prompt{Name: kw, Description: protoTexts[(i+1)%len(protoTexts)], Arguments: []mcp.PromptArgument{{Name: kw, Description: kw}}})
 	}
+	out = append(out,
+		&mcp.Prompt{Name: "%s", Description: "50% done: %d %s %v %%", Arguments: []mcp.PromptArgument{{Name: "%d", Description: "%[1]d", Required: true}, {Name: "100%", Description: "%"}}},
+		&mcp.Prompt{Name: "prompt 100%", Description: "%!d(MISSING)"})
 	return out
 }
 
@@ -260,12 +291,18 @@ func keywordResources() []*mcp.Resource {
 		out = append(out, &mcp.Resource{Name: kw, URI: "res://kw/" + kw, Description: protoTexts[(i+6)%len(protoTexts)], MimeType: protoKeywords[(i+1)%len(protoKeywords)]})
 	}
 	out = append(out, &mcp.Resource{Name: `"method":`, URI: `res://kw/?"id":1,"method":"x"`, Description: `"id":`})
+	out = append(out,
+		&mcp.Resource{Name: "%d", URI: "res://pf/%d/%s", Description: "50% done: %d %s %v %%", MimeType: "text/%s"},
+		&mcp.Resource{Name: "100%", URI: "res://pf/100%25?q=%v", Description: "%"})
 	return out
 }
 
 // ---------------------------------------------------------------- the same vocabulary for the random generators
 
 func genKeyword(r *rand.Rand) string {
+	if r.Intn(3) == 0 {
+		return printfTexts[r.Intn(len(printfTexts))]
+	}
 	if r.Intn(3) == 0 {
 		return protoTexts[r.Intn(len(protoTexts))]
 	}
